@@ -288,11 +288,24 @@ func c10Interleave(sc *C10Sc, env *Env) *Violation {
 	}
 	cpus := make([]*cpuT, n)
 	parked := make(chan int) // a goroutine announces that it is parked (or finished: negative)
+	// current = the CPU whose goroutine the scheduler released last; exactly one
+	// goroutine runs at a time, so reads and writes of these variables are ordered
+	// by the channel operations.
+	current := -1
+	var cross, crashed string
 	for i := range sc.Worlds {
 		c := &cpuT{m: c10Machine(&sc.Worlds[i]), gate: make(chan struct{})}
 		cpus[i] = c
 		idx := i
-		c.m.Hook = func(_ *world.Machine, _ world.Acc) {
+		c.m.Hook = func(_ *world.Machine, a world.Acc) {
+			if current != idx {
+				// the running CPU reached another CPU's devices: that is the violation
+				// itself; do not park (the owner of this bus is not the one running)
+				if cross == "" {
+					cross = fmt.Sprintf("while CPU %d was running, an access %s arrived at the memory/ports of CPU %d", current, a, idx)
+				}
+				return
+			}
 			parked <- idx
 			<-c.gate
 		}
@@ -301,11 +314,16 @@ func c10Interleave(sc *C10Sc, env *Env) *Violation {
 		c, w := cpus[i], &sc.Worlds[i]
 		idx := i
 		go func() {
+			defer func() {
+				if r := recover(); r != nil && crashed == "" {
+					crashed = fmt.Sprintf("CPU %d panicked while interleaved: %v", idx, r)
+				}
+				parked <- -1 - idx
+			}()
 			<-c.gate
 			for k := 0; k < w.Steps; k++ {
 				c.m.Step()
 			}
-			parked <- -1 - idx
 		}()
 	}
 	active := make([]int, n)
@@ -328,6 +346,7 @@ func c10Interleave(sc *C10Sc, env *Env) *Violation {
 			last = id
 		}
 		schedHash = world.Mix64(schedHash, uint64(id))
+		current = id
 		cpus[id].gate <- struct{}{}
 		got := <-parked
 		if got < 0 {
@@ -339,6 +358,12 @@ func c10Interleave(sc *C10Sc, env *Env) *Violation {
 				}
 			}
 		}
+	}
+	if cross != "" {
+		return viol("isolation", "%s", cross)
+	}
+	if crashed != "" {
+		return viol("isolation", "%s (every CPU runs alone without panic)", crashed)
 	}
 	for i, c := range cpus {
 		if d := solo[i].diff(sigOf(c.m)); d != "" {
